@@ -28,6 +28,10 @@ FromDate(day, tt) == last' = [op |-> "fromDate", z |-> cur, day |-> day, tt |-> 
 BagCands(z, w) == {c \in OffCands(z, w) : c.k # "z" /\ c.o % 60 = 0}
 FromBag(w, oc, dis, oo) == last' = [op |-> "bag", z |-> cur, w |-> w, oc |-> oc, dis |-> dis, oo |-> oo,
                                     out |-> InterpretBag(cur, w, oc.k, oc.o, dis, oo)] /\ UNCHANGED cur
+\* a property bag with date fields only (tf = "none") or with time fields that are all zero (tf = "zero"), no offset: InterpretTemporalDateTimeFields
+\* gives the time record 00:00 in both cases (never the start-of-day marker, which belongs to date-only *strings*), so the result is
+\* midnight's wall-clock reading under the caller's disambiguation - also when midnight is skipped or repeated
+FromBagDate(day, tf, dis) == last' = [op |-> "bagDate", z |-> cur, day |-> day, tf |-> tf, dis |-> dis, out |-> Disambiguate(cur, day * 86400, dis)] /\ UNCHANGED cur
 Vias == {"direct", "now", "instant", "rezone", "string"}
 View(t, via) == last' = [op |-> "views", z |-> cur, t |-> t, via |-> via,
                          out |-> IF via = "string" THEN (LET r == StringTrip(cur, t) IN IF r.kind = "ok" THEN Ok(Views(cur, r.val)) ELSE r) ELSE Ok(Views(cur, t))] /\ UNCHANGED cur
@@ -46,6 +50,7 @@ Next == /\ (OneStep => last = None)
            \/ \E w \in IWalls, dis \in {"compatible", "later"}, oo \in OffOpts : \E oc \in BagCands(cur, w) : FromBag(w, oc, dis, oo)
            \/ \E w \in IWalls : \E oc \in OffCands(cur, w) : RelTo(w, oc)
            \/ \E day \in {-1, 0, 1, 2}, tt \in {"none", "midnight"} : FromDate(day, tt)
+           \/ \E day \in {-1, 0, 1, 2}, tf \in {"none", "zero"}, dis \in Diss : FromBagDate(day, tf, dis)
 Spec == Init /\ [][Next]_vars
 \* the text steps alone (C11: what is printed is the rounded value as its zone reads it)
 NextText == /\ (OneStep => last = None)
